@@ -2,6 +2,16 @@ module verifharness
 
 go 1.24.0
 
-require github.com/tailscale/setec v0.0.0
+require (
+	github.com/tailscale/setec v0.0.0
+	github.com/tink-crypto/tink-go/v2 v2.1.0
+)
+
+require (
+	golang.org/x/crypto v0.35.0 // indirect
+	golang.org/x/sys v0.31.0 // indirect
+	google.golang.org/protobuf v1.35.1 // indirect
+	tailscale.com v1.81.0-pre.0.20250303195457-5449aba94c51 // indirect
+)
 
 replace github.com/tailscale/setec => /repo
